@@ -217,6 +217,14 @@ func (c19) RunCase(c *fw.Ctx, rng *fw.RNG, batch, i int) {
 		}
 	}
 	c.Seen(hash, true)
+	if c.WantSample() && len(mine) > 0 {
+		var ds []string
+		for _, b := range bs {
+			ds = append(ds, clipS(b.desc, 600))
+		}
+		c.Sample(map[string]any{"bindings": ds, "values_checked": len(mine), "first_value": clipS(mine[0].tv.Dump(), 400),
+			"checked": "Wrap read-out (both levels), Prototype+Unwrap (both levels), Marshal/Unmarshal dag-cbor+dag-json, history of repeated calls"})
+	}
 	h.history(mine)
 	c19Pool = append(c19Pool, mine...)
 	if len(c19Pool) > 60 {
